@@ -34,7 +34,8 @@ type (
 	}
 	Arr   struct{ Els []Expr }
 	Idx   struct{ X, I Expr }
-	Paren struct{ X Expr } // redundant parentheses, printing only
+	Hash  struct{ KVs []KV } // {k: v, ...} (unique keys)
+	Paren struct{ X Expr }   // redundant parentheses, printing only
 	FnLit struct {
 		Params []string
 		Body   []Node
@@ -559,6 +560,14 @@ func (in *Interp) eval(e Expr) (interface{}, error) {
 		if err != nil {
 			return nil, err
 		}
+		if om, ok := x.(*OrderedMap); ok {
+			k, ok := i.(string)
+			if !ok {
+				in.unspecified("non-string key into a hash")
+				return nil, nil
+			}
+			return om.Vals[k], nil // a missing key yields nil
+		}
 		arr, ok := x.([]interface{})
 		if !ok {
 			in.unspecified("index into %T", x)
@@ -578,6 +587,20 @@ func (in *Interp) eval(e Expr) (interface{}, error) {
 		return arr[n], nil
 	case FnLit:
 		return &Closure{Params: t.Params, Body: t.Body}, nil
+	case Hash:
+		om := &OrderedMap{Vals: map[interface{}]interface{}{}}
+		for _, kv := range t.KVs {
+			v, err := in.eval(kv.V)
+			if err != nil {
+				return nil, err
+			}
+			if _, dup := om.Vals[kv.K]; dup {
+				in.unspecified("duplicate key in a hash literal")
+			}
+			om.Keys = append(om.Keys, kv.K)
+			om.Vals[kv.K] = v
+		}
+		return om, nil
 	case Call:
 		return in.call(t)
 	case Bin:
